@@ -99,7 +99,7 @@ def full_flatten(list_of_seq):
         return list_of_seq
 
 def semi_flatten(list_of_seq):
-    return [flatten(tuple(itertools.chain.from_iterable(seq_of_lists))) for seq_of_lists in list_of_seq]
+    return [tuple(itertools.chain.from_iterable(seq_of_lists)) for seq_of_lists in list_of_seq]
 
 
 def sparse_collapse(matrix, labels, sparse=True):
